@@ -2,7 +2,7 @@ import Rbacx.Model.FileSource
 /-
   Lemmas about the association-list file system: lookup after delete / set / the primitives.
 -/
-namespace Rbacx
+namespace Rbacx.FileSrc
 
 theorem fsGet_fsDel (fs : FS) (p q : Path) :
     fsGet (fsDel fs p) q = if p = q then none else fsGet fs q := by
@@ -38,4 +38,4 @@ theorem fsGet_appendChunk (fs : FS) (p q : Path) (c : Content) (now : Nat) :
   simp only [appendChunk]
   cases h : fsGet fs p <;> simp [fsGet_fsSet]
 
-end Rbacx
+end Rbacx.FileSrc
